@@ -247,4 +247,41 @@ theorem cli_publishStatus (c : Cli.State) (now : Nat) (p : Msg) (key : Bytes) (h
   dsimp only
   rw [if_neg (by decide), if_pos rfl, if_pos hst]
 
+/-! ### stopping -/
+
+def deleteStreamCmd (sid : Nat) : RtmpMsg := .amf0Command (str "deleteStream") 0 .null [.number (F64.ofU32 sid)]
+
+theorem deleteStreamCmd_wf (sid : Nat) (hs : sid < 4294967296) : C13.WF (deleteStreamCmd sid) := by
+  unfold deleteStreamCmd C13.WF
+  exact ⟨by decide, by decide, trivial, F64.ofU32_lt _ hs, trivial⟩
+
+/-- `stop_publishing` / `stop_playback` returned Ok on an active stream: what it put on the wire -/
+theorem stop_ok {c c1 : Cli.State} {now : Nat} {play : Bool} {sid : Nat} {rs : List Cli.Res}
+    (hact : if play then (c.st = .playing ∨ c.st = .playRequested) else (c.st = .publishing ∨ c.st = .publishRequested))
+    (ha : c.activeStream = some sid) (hsid : sid < 4294967296)
+    (h : Cli.stop c now play = (c1, .ok rs)) :
+    ∃ p body, rs = [.out p] ∧ toPayload (deleteStreamCmd sid) = .ok (20, body) ∧
+      Emits c.ser c1.ser [(p, { ts := epoch now, typ := 20, msid := sid, data := body })] ∧
+      c1 = { c with st := .connected, activeStream := none, ser := c1.ser } := by
+  unfold Cli.stop at h
+  simp only [hact, not_true_eq_false, if_false, ha] at h
+  split at h
+  · simp at h
+  · rename_i s2 p hsend
+    simp only [Prod.mk.injEq, Except.ok.injEq] at h
+    obtain ⟨h1, h2⟩ := h
+    subst h1; subst h2
+    obtain ⟨typ, body, hp, he, hs⟩ := cli_send_exact hsend trivial (epoch_lt now) hsid
+    have ht := cmd_typ hp
+    subst ht
+    exact ⟨p, body, rfl, hp, he, by rw [hs]⟩
+
+/-- the server handling that `deleteStream` for a stream it holds -/
+theorem srv_deleteStream (v : Srv.State) (now : Nat) (p : Msg) (sid : Nat) (app : Bytes) (st : Srv.StreamState)
+    (hsid : sid < 4294967296) (hc : v.connected = true) (ha : v.app = some app) (hs : mapGet sid v.streams = some st) :
+    Srv.handleMessage v now p (deleteStreamCmd sid) =
+      .ok ({ v with streams := mapRemove sid v.streams }, Srv.finishedEvents app st) := by
+  simp only [deleteStreamCmd, Srv.handleMessage, hc_deleteStream]
+  simp only [Srv.cmdCloseOrDelete, hc, ha, not_true_eq_false, if_false, F64.toU32_ofU32 sid hsid, hs, if_true]
+
 end Rml.WfSteps
